@@ -9,6 +9,11 @@
 (2) *foreign-module references*: ForwardRef('X', module=M) where M is not the module defining X but one that
     imports it, at the root and at every nested position; and string / ForwardRef members of a class defined in M.
 
+Round 4: every module also issues its bare and dotted names through a shared HELPER module that binds none of them
+(one or more call levels between the issuer and typelib: the module that counts is the nearest one that BINDS the name,
+not the nearest one on the stack); compound texts are not sent through the helper (they are not resolvable from it).
+(3) *cross-module chains* (`cross_groups`): wrapper chains whose links are defined in DIFFERENT modules.
+
 Even histories: the names are unique per module (N<k>, NT<w>, AL<w>, AS<w> with disjoint k / w ranges), so a text
 evaluated in another module's namespace is a NameError.  Odd histories: every module binds the SAME names to its own
 objects, so the same text issued from two modules must be served two different routines (passes on /repo since
@@ -33,7 +38,15 @@ HELPER = ("def _verif_closure(direction, t, x):\n"
           "        def inner():\n"
           "            return unmarshals.unmarshal(t, x) if direction == 'u' else marshals.marshal(x, t=t)\n"
           "        return inner()\n"
-          "    return outer()\n")
+          "    return outer()\n"
+          "def _verif_via(helper, direction, t, x, depth):\n"
+          "    return helper.um(t, x, depth) if direction == 'u' else helper.m(t, x, depth)\n")
+# the shared module between an issuer and typelib: binds none of the issuers' names
+SHARED = ("def um(t, x, depth=0):\n    from typelib import unmarshals\n    if depth:\n        return um(t, x, depth - 1)\n"
+          "    return unmarshals.unmarshal(t, x)\n"
+          "def m(t, x, depth=0):\n    from typelib import marshals\n    if depth:\n        return m(t, x, depth - 1)\n"
+          "    return marshals.marshal(x, t=t)\n")
+VIA_HELPER = ["helper-0", "helper-1", "helper-2"]
 # callers: how the reference is issued -> (module that issues it, call depth / closure)
 CALLERS = ["own-0", "own-1", "own-3", "closure", "importer-0", "importer-2"]
 
@@ -64,6 +77,8 @@ class HGroup(coremodel.Group):
     def __init__(self, env, roots, suppressed, texts):
         super().__init__(env, roots, suppressed)
         self.recorded = {}
+        self.caller_of = {}
+        self.helper = None
         exec(compile(HELPER, self.mod.__file__, "exec", dont_inherit=True), self.mod.__dict__)
         names = [k for k in self.mod.__dict__ if k[:1] == "N" or k[:2] in ("NT", "AL", "AS")]
         self.importer = impl.new_module(
@@ -87,6 +102,8 @@ class HGroup(coremodel.Group):
                 warnings.simplefilter("ignore")
                 if caller == "closure":
                     r = mod._verif_closure(direction, t, x)
+                elif caller.startswith("helper"):
+                    r = mod._verif_via(self.helper, direction, t, x, int(caller.split("-")[1]))
                 else:
                     depth = int(caller.split("-")[1])
                     r = mod._verif_um(t, x, depth) if direction == "u" else mod._verif_m(t, x, depth)
@@ -110,11 +127,18 @@ class HGroup(coremodel.Group):
         except BaseException as e:
             return ("raise", impl.exc_kind(e))
 
-    def observe(self, direction, ri, x):
+    def observe(self, direction, ri, x, clear=True):
+        """inside Group.add: the outcome observed in the history.  Otherwise (warm-replay pass of the shared harness,
+        replays): the same text from the same caller, with every cache kept when clear=False"""
         q = self.recorded.get((direction, ri, id(x)))
         if q:
             return q.pop(0)
-        return super().observe(direction, ri, x)
+        if clear:
+            impl.clear_caches()
+        caller = self.caller_of.get((direction, ri, id(x)))
+        if caller is None:
+            caller = "importer-0" if ri in getattr(self, "qualified", ()) else "own-0"
+        return self.issue(direction, ri, x, caller)
 
 
 def targets(env, a, b):
@@ -135,21 +159,26 @@ def build_history(seed, hi, k_modules, suppressed, notes):
     """one history over k modules -> (groups, steps); steps = [(group, ri, caller, direction, input)]"""
     rng = random.Random(seed * 977 + hi)
     groups, per_module = [], []
+    shared = impl.new_module(coregen.new_module_name("c11shared"), SHARED)
     for k in range(k_modules):
         j = 1 if hi % 2 else 1 + hi * k_modules + k          # odd history: the same names in every module
         env, a, b = make_env(j, rng)
         tg = targets(env, a, b)
-        roots, qualified = [], set()
+        roots, qualified, names = [], set(), set()
         for ti, t in enumerate(tg):
             for pi, pos in enumerate(["list", "dict", "bar", "tuple"]):
                 if (ti + pi + hi) % 2 == 0 or len(roots) < 4:        # half of the cells per history, rotating
                     roots.append(at(pos, t))
-        # compound text over module-qualified names (issued from the importing module, which also imports the
-        # defining module by name), a bare name, a dotted name
-        for r, q in ((at("list", ("name", a)), True), (at("dict", tg[3]), True), (("name", b), False), (("name", a), True)):
-            roots.append(r)
-            if q:
-                qualified.add(len(roots) - 1)
+        # compound texts over module-qualified names (issued from the importing module, which also imports the
+        # defining module by name)
+        for r in (at("list", ("name", a)), at("dict", tg[3])):
+            roots.append(r); qualified.add(len(roots) - 1)
+        # names: every target as a bare name, and two dotted names -- these (and only these) also go through the
+        # shared helper module
+        for t in tg:
+            roots.append(t); names.add(len(roots) - 1)
+        for t in (("name", a), tg[4]):
+            roots.append(t); names.add(len(roots) - 1); qualified.add(len(roots) - 1)
         env.pop("wid")
         try:
             g = HGroup(env, roots, suppressed, {})
@@ -158,6 +187,7 @@ def build_history(seed, hi, k_modules, suppressed, notes):
             continue
         for ri in range(len(roots)):
             g.pytys[ri] = g.texts[ri] = text_of(g.roots[ri], g.env, ri in qualified)
+        g.qualified, g.helper = qualified, shared
         g.meta = [("history", "root", i) for i in range(len(roots))]
         groups.append(g)
         calls = []
@@ -168,12 +198,28 @@ def build_history(seed, hi, k_modules, suppressed, notes):
                 continue
             pool = CALLERS[4:] if ri in qualified else CALLERS
             wire = g.expected("m", ri, v)            # computed beforehand; the history starts from cleared caches
-            calls.append((g, ri, pool[(ri + k + hi) % len(pool)], "m", v))
-            calls.append((g, ri, rng.choice(pool), "u", wire[1] if wire[0] == "ok" and rng.random() < 0.7 else v))
+            if ri in names:
+                # through the helper in every module (the same helper frames for everybody), then from anywhere
+                first, second = VIA_HELPER[(ri + hi) % 3], rng.choice(pool + VIA_HELPER)
+            else:
+                first, second = pool[(ri + k + hi) % len(pool)], rng.choice(pool)
+            calls.append((g, ri, first, "m", v))
+            if ri in names:      # unmarshal shows the class: once through the helper in every module as well
+                calls.append((g, ri, VIA_HELPER[(ri + hi + 1) % 3], "u", wire[1] if wire[0] == "ok" else v))
+            calls.append((g, ri, second, "u", wire[1] if wire[0] == "ok" and rng.random() < 0.7 else v))
         per_module.append(calls)
     # interleaved: module 1's first call, module 2's first call, ...; then a few repeats (served from the caches)
     steps = [c for row in itertools.zip_longest(*per_module) for c in row if c is not None]
     steps += [steps[i] for i in rng.sample(range(len(steps)), min(6, len(steps)))]
+    for g, ri, caller, direction, x in steps:
+        g.caller_of[(direction, ri, id(x))] = caller
+    if groups:
+        inner = groups[0].close
+
+        def close():
+            inner()
+            impl.drop_module(shared.__name__)
+        groups[0].close = close
     return groups, steps
 
 
@@ -257,6 +303,16 @@ MEMBERS = [  # (field, annotation written in the importing module, the plain ann
     ("w5", "list[NTb]", "list[Node]"), ("w6", "typing.Optional[ASb]", "typing.Optional[Node]"),
     ("w7", "dict[str, ALNT]", "dict[str, Node]"), ("w8", "typing.Final[ALNT]", "Node"),
 ]
+# round 4: the string-valued alias lives in the DEFINING module (ASa, ASg), the outer links in the class's module
+CROSS_MEMBERS = [
+    ("x1", "NTx", "Node"), ("x2", "ALx", "Node"), ("x3", "typing.Final[NTx]", "Node"), ("x4", "list[ALx]", "list[Node]"),
+    ("x5", "dict[str, NTALx]", "dict[str, Node]"), ("x6", "typing.Optional[NTx]", "typing.Optional[Node]"),
+    ("x7", "NTg", "list[Node]"), ("x8", "ALLx", "list[Node]"), ("x9", "tuple[ALx, int]", "tuple[Node, int]"),
+]
+CROSS_WRAPPERS = ("from typelib.py.compat import TypeAliasType\nfrom verif_c11_fa import ASa, ASg\n"
+                  "NTx = typing.NewType('NTx', ASa)\nALx = TypeAliasType('ALx', ASa)\nNTALx = typing.NewType('NTALx', ALx)\n"
+                  "NTg = typing.NewType('NTg', ASg)\nALLx = TypeAliasType('ALLx', list[NTx])\n")
+OTHER_NODE = "@dataclasses.dataclass\nclass Node:\n    other: str = 'shop'\n"
 WRAPPERS = ("from typelib.py.compat import TypeAliasType\nNTb = typing.NewType('NTb', Node)\nALb = TypeAliasType('ALb', Node)\n"
             "ASb = TypeAliasType('ASb', 'Node')\nALNT = TypeAliasType('ALNT', NTb)\n")
 MEMBER_WIRE = {"Node": {"x": "1", "nxt": {"x": 2}}, "list[Node]": [{"x": "1"}, {"x": 2, "nxt": {"x": 3}}],
@@ -270,8 +326,9 @@ def foreign_members(fails, stats, only=None):
     plain annotations; the member is the first visit of Node, or a revisit (a plain member comes first)"""
     from typelib import marshals, unmarshals
     import dataclasses
-    impl.new_module("verif_c11_fa", "import dataclasses, typing\n@dataclasses.dataclass\nclass Node:\n    x: int\n"
-                    "    nxt: typing.Optional['Node'] = None\n")
+    impl.new_module("verif_c11_fa", "import dataclasses, typing\nfrom typelib.py.compat import TypeAliasType\n"
+                    "@dataclasses.dataclass\nclass Node:\n    x: int\n    nxt: typing.Optional['Node'] = None\n"
+                    "ASa = TypeAliasType('ASa', 'Node')\nASg = TypeAliasType('ASg', 'list[Node]')\n")
 
     def out(f):
         try:
@@ -280,10 +337,15 @@ def foreign_members(fails, stats, only=None):
         except Exception as e:
             return ("raise", impl.exc_kind(e))
 
-    def one(field, ann, plain, revisit):
+    def one(field, ann, plain, revisit, binding="same"):
         src = ("import typing, dataclasses\nfrom verif_c11_fa import Node\n" + WRAPPERS +
                "@dataclasses.dataclass\nclass Holder:\n" + ("    a0: Node\n" if revisit else "") + "    {}: {}\n")
         here = impl.new_module("verif_c11_fa_plain", src.format(field, plain))
+        if binding != "same":
+            # the class's module does not bind `Node` / binds another class under that name; the chain's text is
+            # written in verif_c11_fa and means verif_c11_fa.Node
+            src = ("import typing, dataclasses\n" + (OTHER_NODE if binding == "other" else "") + CROSS_WRAPPERS +
+                   "@dataclasses.dataclass\nclass Holder:\n" + ("    a0: NTx\n" if revisit else "") + "    {}: {}\n")
         there = impl.new_module("verif_c11_fb", src.format(field, ann))
         x = {field: MEMBER_WIRE[plain]}
         if revisit:
@@ -305,15 +367,206 @@ def foreign_members(fails, stats, only=None):
             if exp != got:
                 fails.append({"symptom": f"{what} of a class whose member names an imported type through a reference or "
                                          "a wrapper of the importing module differs from the class with the plain member",
-                              "tag": "foreign-member", "member": field, "revisit": revisit, "wrapped_type": ann,
+                              "tag": "foreign-member", "member": field, "revisit": revisit, "binding": binding,
+                              "wrapped_type": ann,
                               "plain_type": plain, "input": repr(x), "got": repr(got)[:300], "expected": repr(exp)[:300],
-                              "key": json.dumps(["C11-foreign-member", field, what, revisit])})
+                              "key": json.dumps(["C11-foreign-member", field, what, revisit, binding])})
     try:
         for field, ann, plain in MEMBERS:
             if only and field != only:
                 continue
             for revisit in (False, True):
                 one(field, ann, plain, revisit)
+        for field, ann, plain in CROSS_MEMBERS:
+            if only and field != only:
+                continue
+            for binding in ("unbound", "other"):
+                for revisit in (False, True):
+                    one(field, ann, plain, revisit, binding)
     finally:
         for m in ("verif_c11_fa", "verif_c11_fa_plain", "verif_c11_fb"):
             impl.drop_module(m)
+
+
+# ----------------------------------------------------------------------------------
+# (3) wrapper chains whose links are defined in different modules (round 4)
+# ----------------------------------------------------------------------------------
+# A = the module that defines the classes and the string-valued alias (the innermost link, whose text is written
+# there); B = another module.  A chain is a list of (kind, module) links from the inside out; at least one link is in B.
+CROSS_CHAINS = [
+    [("newtype", "B")], [("alias", "B")],
+    [("newtype", "A"), ("alias", "B")], [("alias", "A"), ("newtype", "B")],
+    [("newtype", "B"), ("alias", "B")], [("alias", "B"), ("newtype", "B")],
+]
+# what B binds under the names the text uses: nothing / other classes of the same names / nothing, and the text is
+# written in a third module with names only that module binds / the same classes
+BINDINGS = ["unbound", "other", "renamed", "same"]
+CROSS_POSITIONS = ["root", "list", "dict", "tuple", "opt", "alias-of-generic"]
+OTHER_CLASSES = ("@dataclasses.dataclass\nclass N0:\n    other: str = 'shop'\n"
+                 "@dataclasses.dataclass\nclass N1:\n    other: str = 'shop'\n")
+
+
+def cross_env():
+    env = {"module": coregen.new_module_name("c11x"), "defs": {}}
+    env["defs"][0] = ("class", "dataclass", "", [("v", ("leaf", "int"), None), ("name", ("leaf", "str"), None)])
+    env["defs"][1] = ("class", "plain", "", [("x", ("name", 0), None), ("kids", ("seq", "KList", "list[{}]", ("name", 1)), None)])
+    # a string-valued alias of a generic: N2 = TypeAliasType('N2', 'list[N0]')
+    env["defs"][2] = ("alias", "list[N0]", ("seq", "KList", "list[{}]", ("name", 0)))
+    return env
+
+
+def cross_at(pos, t, wid, b_links):
+    if pos == "root":
+        return t
+    if pos == "alias-of-generic":          # B's alias of a generic over the chain
+        i = next(wid)
+        b_links.append(("alias", i))
+        return ("alias", i, ("seq", "KList", "list[{}]", t))
+    return {"list": lambda: ("seq", "KList", "list[{}]", t),
+            "dict": lambda: ("map", "KDict", "dict[{}, {}]", ("leaf", "str"), t),
+            "tuple": lambda: ("tuple", "tuple[{}]", [("leaf", "int"), t]),
+            "opt": lambda: ("union", "Optional", [t, ("none",)])}[pos]()
+
+
+def cross_root(inner, chain, pos, wid):
+    """-> (plain description, wrapped description, [(kind, id) of the links defined in B])"""
+    base = {"as0": lambda: ("aliasstr", next(wid), 0), "as1": lambda: ("aliasstr", next(wid), 1),
+            "asg": lambda: ("name", 2)}[inner]()
+    plain = {"as0": ("name", 0), "as1": ("name", 1), "asg": ("seq", "KList", "list[{}]", ("name", 0))}[inner]
+    t, b_links = base, []
+    for kind, where in chain:
+        i = next(wid)
+        t = (kind, i, t)
+        if where == "B":
+            b_links.append((kind, i))
+    wrapped = cross_at(pos, t, wid, b_links)
+    plain = cross_at(pos, plain, wid, []) if pos != "alias-of-generic" else ("seq", "KList", "list[{}]", plain)
+    return plain, wrapped, b_links
+
+
+def attach_shop(g, specs):
+    """specs = [(root index, binding, b_links)]: module B per binding; the annotation of each root is evaluated in B,
+    where the links of b_links are DEFINED (their __module__ is B) and everything else is imported.
+    binding 'renamed': the string-valued alias (and every other link outside B) lives in a third module X which binds
+    the classes under OTHER names (`from A import N0 as Item0`) and writes the text with them; B binds none of them."""
+    a = g.env["module"]
+    per_binding = {}
+    for ri, binding, b_links in specs:
+        per_binding.setdefault(binding, []).append((ri, set(map(tuple, b_links))))
+    g.shops = {}
+    made = []
+    for binding, items in per_binding.items():
+        head = ["import typing, collections, dataclasses", "from typelib.py.compat import TypeAliasType"]
+        lines = head + [f"import {a}"]
+        src_mod, xlines = a, None
+        if binding == "same":
+            lines.append(f"from {a} import N0, N1")
+        elif binding == "other":
+            lines.append(OTHER_CLASSES.rstrip("\n"))
+        elif binding == "renamed":
+            src_mod = f"{a}_x"
+            xlines = head + [f"from {a} import N0 as Item0, N1 as Item1", "N2 = TypeAliasType('N2', 'list[Item0]')"]
+        lines.append(f"from {src_mod} import N2")
+        done = set()
+        for ri, b_links in items:
+            ws = []
+            universe.wrappers_in(g.roots[ri], ws)
+            for w in ws:
+                key = (w[0], w[1])
+                if key in done:
+                    continue
+                done.add(key)
+                nm = {"newtype": "NT", "alias": "AL", "aliasstr": "AS"}[w[0]] + str(w[1])
+                if w[0] == "aliasstr":
+                    define = f"{nm} = TypeAliasType({nm!r}, 'Item{w[2]}')"
+                elif w[0] == "newtype":
+                    define = f"{nm} = typing.NewType({nm!r}, {universe.src_ty(w[2], g.env)})"
+                else:
+                    define = f"{nm} = TypeAliasType({nm!r}, {universe.src_ty(w[2], g.env)})"
+                if key in b_links:
+                    lines.append(define)
+                else:
+                    lines.append(f"from {src_mod} import {nm}")
+                    if xlines is not None:
+                        xlines.append(define)
+        if xlines is not None:
+            impl.new_module(src_mod, "\n".join(xlines) + "\n")
+            made.append(src_mod)
+        name = f"{a}_shop_{binding}"
+        shop = impl.new_module(name, "\n".join(lines) + "\n")
+        made.append(name)
+        g.shops[binding] = shop
+        for ri, _ in items:
+            g.pytys[ri] = eval(universe.src_ty(g.roots[ri], g.env), shop.__dict__)
+            for sub in universe.subdescs(g.roots[ri], []):
+                if sub[0] in ("newtype", "alias", "aliasstr", "seq", "map", "tuple", "union") or sub == ("name", 2):
+                    g.reg.rev.append((eval(universe.src_ty(sub, g.env), shop.__dict__), sub))
+    g.shop_specs = {ri: (binding, [list(k) for k in b_links]) for ri, binding, b_links in specs}
+    inner = g.close
+
+    def close():
+        inner()
+        for m in made:
+            impl.drop_module(m)
+    g.close = close
+
+
+def cross_groups(seed, thorough, suppressed, notes):
+    """-> (groups, pairs) in the format of the property's standard pairs (plain root vs wrapped root).
+    The chains over the string-valued alias of a GENERIC (N2 = TypeAliasType('N2', 'list[N0]')) are in a group of their
+    own marked oracle_only: the shared harness has no description for the node ForwardRef('list[N0]', module=A), so
+    the mechanism tie cannot take them; the oracle does."""
+    out_g, out_p = [], []
+    bindings = BINDINGS if thorough else BINDINGS[:3]
+    tie = [b for b in bindings if b != "renamed"]      # ForwardRef('Item0', module=X) has no description either
+    for inners, bs, oracle_only in ((("as0", "as1"), tie, False), (("as0", "as1"), ["renamed"], True),
+                                    (("asg",), bindings, True)):
+        gs, ps = _cross_group(seed, thorough, suppressed, notes, inners, bs)
+        for g in gs:
+            g.oracle_only = oracle_only
+        out_g += gs
+        out_p += ps
+    return out_g, out_p
+
+
+def _cross_group(seed, thorough, suppressed, notes, inners, bindings):
+    rng = random.Random(seed * 389 + 5 + len(inners) + 3 * len(bindings))
+    env = cross_env()
+    wid = itertools.count(1)
+    roots, specs, plan = [], [], []
+    plain_index = {}
+    for ii, inner in enumerate(inners):
+        for pi, pos in enumerate(CROSS_POSITIONS):
+            for bi, binding in enumerate(bindings):
+                for ci, chain in enumerate(CROSS_CHAINS):
+                    if not thorough and (ci + ii + pi + bi + seed) % 3:
+                        continue
+                    plain, wrapped, b_links = cross_root(inner, chain, pos, wid)
+                    if (inner, pos) not in plain_index:
+                        plain_index[(inner, pos)] = len(roots)
+                        roots.append(plain)
+                    roots.append(wrapped)
+                    specs.append((len(roots) - 1, binding, b_links))
+                    plan.append((plain_index[(inner, pos)], len(roots) - 1,
+                                 f"cross-{pos}", {"inner": inner, "binding": binding,
+                                                  "chain": "/".join(f"{k}@{m}" for k, m in chain)}))
+    try:
+        g = coremodel.Group(env, roots, suppressed)
+        attach_shop(g, specs)
+    except Exception as e:
+        notes.append(f"cross-module group failed to materialise: {e!r}")
+        return [], []
+    g.ref_depth = 0
+    g.meta = [("cross", "root", i) for i in range(len(roots))]
+    pairs, plain_obs = [], {}
+    for p_ri, w_ri, tag, info in plan:
+        if p_ri not in plain_obs:
+            v = coregen.gen_value(rng, g.roots[p_ri], g.env, g.mod, depth=2)
+            wire = g.add("m", p_ri, v)
+            inputs = coregen.input_pool(rng, v, wire[1] if wire[0] == "ok" else None)
+            plain_obs[p_ri] = (v, wire, [(t, x, g.add("u", p_ri, x)) for t, x in inputs])
+        v, wire, obs = plain_obs[p_ri]
+        pairs.append({"group": g, "plain": p_ri, "wrapped": w_ri, "tag": tag, "value": v, "cross": info,
+                      "m": (wire, g.add("m", w_ri, v)),
+                      "u": [(t, x, a, g.add("u", w_ri, x)) for t, x, a in obs]})
+    return [g], pairs
